@@ -81,6 +81,8 @@ SUCCESS = ("obj", "none")
 SPELLINGS = ("none", "tuple", "list", "set")
 DELAYS = (0, 0.5)
 NONEXC_CLASSES = {"int": int, "str": str, "object": object, "Plain": Plain}
+# (classes deriving from BaseException only - KeyboardInterrupt, a gevent-style Timeout - ARE exception classes;
+#  whether a retry list may hold them is not fixed by the statement, so neither verdict is demanded)
 NONCLASS_MEMBERS = {"instance": Base("an instance"), "string": "Base", "None": None, "zero": 0}
 
 
